@@ -5,7 +5,8 @@ For every seeded change (default: all under seeded/), in its own scratch worktre
 was reported.  The scratch worktree is removed afterwards.  Nothing is ever applied in /repo.
 Prints one line per change and writes seeded/RESULTS.json.  --check CID runs check CID instead
 of the change's own property (cross-detection)."""
-import os, sys, json, subprocess, concurrent.futures, argparse, shutil, time
+import os, sys, json, subprocess, concurrent.futures, argparse, shutil, time, threading
+GIT_LOCK = threading.Lock()   # concurrent `git worktree add/remove` on one repository race with each other
 HERE = os.path.dirname(os.path.dirname(os.path.abspath(__file__)))
 
 def run_one(args):
@@ -13,7 +14,8 @@ def run_one(args):
     prop = cid or sid.split('-')[0]
     wt = '/tmp/rw/seed-%s-%s-%d' % (sid, prop, os.getpid())
     os.makedirs('/tmp/rw', exist_ok=True)
-    subprocess.run(['git', '-C', '/repo', 'worktree', 'add', '-q', '--detach', wt, 'HEAD'], check=True)
+    with GIT_LOCK:
+        subprocess.run(['git', '-C', '/repo', 'worktree', 'add', '-q', '--detach', wt, 'HEAD'], check=True)
     try:
         r = subprocess.run(['git', '-C', wt, 'apply', os.path.join(HERE, 'seeded', sid, 'patch.diff')], capture_output=True, text=True)
         if r.returncode != 0:
@@ -35,7 +37,8 @@ def run_one(args):
         status = 'DETECTED' if (r.returncode == 1 and viol) else ('MISSED' if r.returncode == 0 else 'ERROR rc=%d %s' % (r.returncode, out[-300:]))
         return sid, prop, status, why, round(time.time() - t0, 1)
     finally:
-        subprocess.run(['git', '-C', '/repo', 'worktree', 'remove', '--force', wt])
+        with GIT_LOCK:
+            subprocess.run(['git', '-C', '/repo', 'worktree', 'remove', '--force', wt])
 
 def main():
     ap = argparse.ArgumentParser()
